@@ -2,6 +2,7 @@
    the copy is complete iff the slots suffice; otherwise the destination holds a clean truncation of the source,
    at most one slot is neither in the destination nor free afterwards, and more slots only make the result grow. *)
 From Coq Require Import List NArith ZArith Bool Arith Lia.
+From Coq Require Import Floats.SpecFloat.
 From AJ Require Import Model.Base Model.Value Model.CopyBudget.
 Import ListNotations.
 
@@ -149,6 +150,44 @@ Lemma copy_JObj : forall l b,
 Proof. intros. rewrite copy_budget_JObj, copy_obj_cpo. reflexivity. Qed.
 
 (* ------------------------------------------------------------------------------------------------ *)
+(* scalars: no slot, or one extension slot (doubles, wide integers)                                  *)
+(* ------------------------------------------------------------------------------------------------ *)
+Definition scalar (v : jv) : Prop := match v with JArr _ | JObj _ => False | _ => True end.
+
+Lemma ext_le1 : forall v, ext v <= 1.
+Proof. destruct v; cbn [ext]; try lia. destruct (_ || _)%bool; lia. Qed.
+
+Lemma ext_scalar : forall v, ext v = 1 -> scalar v.
+Proof. destruct v; cbn [ext scalar]; intros H; try exact I; discriminate. Qed.
+
+Lemma slots_scalar : forall v, scalar v -> slots v = ext v.
+Proof. destruct v; cbn [scalar]; intros H; try contradiction; reflexivity. Qed.
+
+Lemma scalar_budget_cases : forall v b,
+  (ext v <= b /\ scalar_budget v b = (v, b - ext v, true)) \/
+  (ext v = 1 /\ b = 0 /\ scalar_budget v b = (JNull, 0, false)).
+Proof.
+  intros v b. unfold scalar_budget. pose proof (ext_le1 v) as H1. destruct (ext v) as [|n].
+  - left. split; [lia|]. rewrite Nat.sub_0_r. reflexivity.
+  - assert (n = 0) by lia. subst n. destruct b as [|b1].
+    + right. auto.
+    + left. split; [lia|]. replace (S b1 - 1) with b1 by lia. reflexivity.
+Qed.
+
+(* a scalar is copied whole when its slot (if it needs one) can be had; otherwise the destination is null *)
+Lemma copy_scalar_cases : forall v b, scalar v ->
+  (slots v <= b /\ copy_budget v b = (v, b - slots v, true)) \/
+  (slots v = 1 /\ ext v = 1 /\ b = 0 /\ copy_budget v b = (JNull, 0, false)).
+Proof.
+  intros v b Hs. rewrite (slots_scalar v Hs).
+  assert (HE : copy_budget v b = scalar_budget v b) by (destruct v; try contradiction; reflexivity).
+  rewrite HE. destruct (scalar_budget_cases v b) as [[H1 H2]|[H1 [H2 H3]]]; [left|right]; auto.
+Qed.
+
+Lemma slots_JNull : slots JNull = 0.
+Proof. reflexivity. Qed.
+
+(* ------------------------------------------------------------------------------------------------ *)
 (* 1. enough slots: the copy is complete and takes exactly slots v                                    *)
 (* ------------------------------------------------------------------------------------------------ *)
 Definition complete_at (v : jv) : Prop :=
@@ -176,11 +215,16 @@ Proof.
     f_equal. f_equal. lia.
 Qed.
 
+Lemma copy_enough_scalar : forall v, scalar v -> complete_at v.
+Proof.
+  intros v Hs n Hn. destruct (copy_scalar_cases v n Hs) as [[_ HSeq]|[HS1 [_ [HSb _]]]]; [exact HSeq|lia].
+Qed.
+
 Theorem copy_enough : forall v b,
   slots v <= b -> copy_budget v b = (v, b - slots v, true).
 Proof.
   intros v. change (complete_at v).
-  induction v using jv_ind_cb; try (intros n Hn; cbn [copy_budget slots]; rewrite Nat.sub_0_r; reflexivity).
+  induction v using jv_ind_cb; try (apply copy_enough_scalar; exact I).
   - intros n Hn. rewrite slots_JArr in *. rewrite copy_JArr, (cpa_enough l H n Hn). reflexivity.
   - intros n Hn. rewrite slots_JObj in *. rewrite copy_JObj, (cpo_enough l H n Hn). reflexivity.
 Qed.
@@ -230,10 +274,16 @@ Proof.
     reflexivity.
 Qed.
 
+Lemma copy_short_scalar : forall v, scalar v -> fails_at v.
+Proof.
+  intros v Hs n Hn. destruct (copy_scalar_cases v n Hs) as [[HSle _]|[_ [_ [_ HSeq]]]]; [lia|].
+  rewrite HSeq. reflexivity.
+Qed.
+
 Theorem copy_short : forall v b, b < slots v -> snd (copy_budget v b) = false.
 Proof.
   intros v. change (fails_at v).
-  induction v using jv_ind_cb; try (intros n Hn; cbn [slots] in Hn; lia).
+  induction v using jv_ind_cb; try (apply copy_short_scalar; exact I).
   - intros n Hn. rewrite slots_JArr in Hn. rewrite copy_JArr.
     pose proof (cpa_short l H n Hn) as HS. destruct (cpa l n) as [[p r] ok]. exact HS.
   - intros n Hn. rewrite slots_JObj in Hn. rewrite copy_JObj.
@@ -264,13 +314,15 @@ Qed.
 (* ------------------------------------------------------------------------------------------------ *)
 (* trunc p v: p is v cut short.  An array keeps a prefix of whole elements; an object keeps its first n members
    unchanged and possibly one more member, with the same key, whose value is itself cut short.  Keys are never
-   changed, and a member always has a value (by the type of JObj). *)
+   changed, and a member always has a value (by the type of JObj).  A double or a wide integer (ext v = 1) whose
+   extension slot could not be had is null. *)
 Inductive trunc : jv -> jv -> Prop :=
 | trunc_refl : forall v, trunc v v
 | trunc_arr : forall p l, (exists t, l = p ++ t) -> trunc (JArr p) (JArr l)
 | trunc_obj_cut : forall p l n, p = firstn n l -> trunc (JObj p) (JObj l)
 | trunc_obj_part : forall p l n k e pe,
-    p = firstn n l ++ [(k, pe)] -> nth_error l n = Some (k, e) -> trunc pe e -> trunc (JObj p) (JObj l).
+    p = firstn n l ++ [(k, pe)] -> nth_error l n = Some (k, e) -> trunc pe e -> trunc (JObj p) (JObj l)
+| trunc_ext : forall v, ext v = 1 -> trunc JNull v.   (* a scalar whose extension slot could not be had: null *)
 
 (* the same for the member lists, by recursion on the list *)
 Inductive otrunc : list (bytes * jv) -> list (bytes * jv) -> Prop :=
@@ -323,10 +375,17 @@ Proof.
     + specialize (He b2). rewrite Heq in *. cbn [fst] in *. apply ot_part, He.
 Qed.
 
+Lemma copy_trunc_scalar : forall v, scalar v -> trunc_at v.
+Proof.
+  intros v Hs n. destruct (copy_scalar_cases v n Hs) as [[_ HSeq]|[_ [HSe [_ HSeq]]]]; rewrite HSeq; cbn [fst].
+  - apply trunc_refl.
+  - apply trunc_ext, HSe.
+Qed.
+
 Theorem copy_trunc : forall v b, trunc (fst (fst (copy_budget v b))) v.
 Proof.
   intros v. change (trunc_at v).
-  induction v using jv_ind_cb; try (intros n; cbn [copy_budget fst]; apply trunc_refl).
+  induction v using jv_ind_cb; try (apply copy_trunc_scalar; exact I).
   - intros n. rewrite copy_JArr. destruct (cpa_prefix l n) as [t Ht].
     destruct (cpa l n) as [[p r] ok]. cbn [fst] in *. apply trunc_arr. exists t. exact Ht.
   - intros n. rewrite copy_JObj. pose proof (cpo_otrunc l H n) as HO.
@@ -354,11 +413,12 @@ Qed.
 
 Theorem trunc_slots : forall p v, trunc p v -> slots p <= slots v.
 Proof.
-  induction 1 as [v|p l [t Ht]|p l n Hp|p l n k e pe Hp Hn HT IH].
+  induction 1 as [v|p l [t Ht]|p l n Hp|p l n k e pe Hp Hn HT IH|v Hv].
   - lia.
   - rewrite !slots_JArr. subst l. rewrite slots_arr_app. lia.
   - rewrite !slots_JObj. subst p. apply slots_obj_firstn.
   - rewrite !slots_JObj. subst p. eapply slots_obj_firstn_part; eauto.
+  - rewrite slots_JNull. lia.
 Qed.
 
 (* ------------------------------------------------------------------------------------------------ *)
@@ -397,10 +457,17 @@ Proof.
     + injection Heq as <- <- <-. destruct (He _ _ _ _ Ee) as [H1 H2]. cbn [slots_obj]. lia.
 Qed.
 
+Lemma copy_conserve_scalar : forall v, scalar v -> conserve_at v.
+Proof.
+  intros v Hs n p r ok Heq.
+  destruct (copy_scalar_cases v n Hs) as [[HSle HSeq]|[_ [_ [HSb HSeq]]]]; rewrite HSeq in Heq; injection Heq as <- <- <-.
+  - lia.
+  - rewrite slots_JNull. lia.
+Qed.
+
 Lemma copy_conserve_aux : forall v, conserve_at v.
 Proof.
-  induction v using jv_ind_cb;
-    try (intros n p r ok Heq; cbn [copy_budget] in Heq; injection Heq as <- <- <-; cbn [slots]; lia).
+  induction v using jv_ind_cb; try (apply copy_conserve_scalar; exact I).
   - intros n p r ok Heq. rewrite copy_JArr in Heq. destruct (cpa l n) as [[p' r'] ok'] eqn:El.
     injection Heq as <- <- <-. rewrite slots_JArr. eapply cpa_conserve; eauto.
   - intros n p r ok Heq. rewrite copy_JObj in Heq. destruct (cpo l n) as [[p' r'] ok'] eqn:El.
@@ -419,7 +486,8 @@ Proof.
 Qed.
 
 (* when exactly is a slot lost?  Somewhere along the path of first failures, the copy of an object stopped at a
-   member with exactly one slot left (addMember took the key slot and was refused the value slot). *)
+   member with exactly one slot left (addMember took the key slot and was refused the value slot).  A scalar that
+   is refused its extension slot loses nothing (there was no slot to take). *)
 Inductive loses : jv -> nat -> Prop :=
 | loses_arr : forall p e t b1,
     loses e b1 -> loses (JArr (p ++ e :: t)) (slots (JArr p) + S b1)
@@ -513,10 +581,17 @@ Proof.
       apply He. lia.
 Qed.
 
+Lemma lost_loses_scalar : forall v, scalar v -> forall b, lost_one v b -> loses v b.
+Proof.
+  intros v Hs n Hn. unfold lost_one in Hn. exfalso.
+  destruct (copy_scalar_cases v n Hs) as [[HSle HSeq]|[_ [_ [HSb HSeq]]]]; rewrite HSeq in Hn; cbn [fst snd] in Hn.
+  - lia.
+  - rewrite slots_JNull in Hn. lia.
+Qed.
+
 Lemma lost_loses : forall v b, lost_one v b -> loses v b.
 Proof.
-  induction v using jv_ind_cb;
-    try (intros n Hn; unfold lost_one in Hn; cbn [copy_budget fst snd slots] in Hn; lia).
+  induction v using jv_ind_cb; try (apply lost_loses_scalar; exact I).
   - intros n Hn. unfold lost_one in Hn. rewrite copy_JArr in Hn.
     pose proof (cpa_lost l H n) as HL. destruct (cpa l n) as [[p r] ok]. cbn [fst snd] in *.
     rewrite slots_JArr in Hn. destruct (HL Hn) as [p' [e [t [b1 [Hl [Hb HE]]]]]]. subst l. rewrite Hb.
@@ -582,11 +657,23 @@ Proof.
       * cbn [fst] in *. apply ot_part, He. lia.
 Qed.
 
+Lemma copy_mono_scalar : forall v, scalar v -> mono_at v.
+Proof.
+  intros v Hs n n' Hn.
+  destruct (copy_scalar_cases v n Hs) as [[HSle HSeq]|[_ [HSe [HSb HSeq]]]];
+    destruct (copy_scalar_cases v n' Hs) as [[HSle' HSeq']|[HS1' [_ [HSb' HSeq']]]];
+    rewrite HSeq, HSeq'; cbn [fst].
+  - apply trunc_refl.
+  - lia.
+  - apply trunc_ext, HSe.
+  - apply trunc_refl.
+Qed.
+
 Theorem copy_mono : forall v b b', b <= b' ->
   trunc (fst (fst (copy_budget v b))) (fst (fst (copy_budget v b'))).
 Proof.
   intros v. change (mono_at v).
-  induction v using jv_ind_cb; try (intros n n' Hn; cbn [copy_budget fst]; apply trunc_refl).
+  induction v using jv_ind_cb; try (apply copy_mono_scalar; exact I).
   - intros n n' Hn. rewrite !copy_JArr. destruct (cpa_mono l n n' Hn) as [q Hq].
     destruct (cpa l n) as [[p r] ok]. destruct (cpa l n') as [[p' r'] ok']. cbn [fst] in *.
     apply trunc_arr. exists q. exact Hq.
@@ -653,4 +740,39 @@ Proof. vm_compute. reflexivity. Qed.
 Example ex_obj_b5 : copy_budget ex_obj 5 = (JObj [([97%N], JArr [JInt 4; JInt 5])], 0, false).
 Proof. vm_compute. reflexivity. Qed.
 Example ex_obj_b7 : copy_budget ex_obj 7 = (JObj [([97%N], JArr [JInt 4; JInt 5]); ([98%N], JObj [])], 0, false).
+Proof. vm_compute. reflexivity. Qed.
+
+(* scalars with an extension slot: xv = [0.1, 5000000000] — each element takes its own slot and one more *)
+Definition ex_dbl : jv := JDouble (S754_finite false 7205759403792794 (-56)).     (* the double 0.1 *)
+Definition ex_wide : jv := JInt 5000000000.
+Definition ex_xv : jv := JArr [ex_dbl; ex_wide].
+
+Example exx_dbl_valid : match ex_dbl with JDouble f => valid_binary 53 1024 f | _ => false end = true.
+Proof. vm_compute. reflexivity. Qed.
+Example exx_ext : (ext ex_dbl, ext ex_wide, ext (JInt 4294967295), ext (JInt (-2147483648)), ext (JInt (-2147483649)))
+                  = (1, 1, 0, 0, 1).
+Proof. vm_compute. reflexivity. Qed.
+Example exx_slots : slots ex_xv = 4.
+Proof. vm_compute. reflexivity. Qed.
+Example exx_b0 : copy_budget ex_xv 0 = (JArr [], 0, false).
+Proof. vm_compute. reflexivity. Qed.
+(* the element's slot is had, its extension slot is not: the element (null) is discarded and its slot comes back *)
+Example exx_b1 : copy_budget ex_xv 1 = (JArr [], 1, false).
+Proof. vm_compute. reflexivity. Qed.
+Example exx_b2 : copy_budget ex_xv 2 = (JArr [ex_dbl], 0, false).
+Proof. vm_compute. reflexivity. Qed.
+Example exx_b3 : copy_budget ex_xv 3 = (JArr [ex_dbl], 1, false).
+Proof. vm_compute. reflexivity. Qed.
+Example exx_b4 : copy_budget ex_xv 4 = (ex_xv, 0, true).
+Proof. vm_compute. reflexivity. Qed.
+(* in an object the member stays, holding null: {"a":0.1} with 2 slots, nothing lost; with 1 slot the key slot is lost *)
+Example exx_obj_b1 : copy_budget (JObj [([97%N], ex_dbl)]) 1 = (JObj [], 0, false).
+Proof. vm_compute. reflexivity. Qed.
+Example exx_obj_b2 : copy_budget (JObj [([97%N], ex_dbl)]) 2 = (JObj [([97%N], JNull)], 0, false).
+Proof. vm_compute. reflexivity. Qed.
+Example exx_obj_b3 : copy_budget (JObj [([97%N], ex_dbl)]) 3 = (JObj [([97%N], ex_dbl)], 0, true).
+Proof. vm_compute. reflexivity. Qed.
+Example exx_scalar_b0 : copy_budget ex_wide 0 = (JNull, 0, false).
+Proof. vm_compute. reflexivity. Qed.
+Example exx_scalar_b1 : copy_budget ex_wide 1 = (ex_wide, 0, true).
 Proof. vm_compute. reflexivity. Qed.
